@@ -18,6 +18,7 @@ pub const FLOORS: &[&str] = &[
     "origin:default", "origin:other", "origin:ge8000", "image_straddles_8000", "break_or_orig_interleaved",
     "assembly_after_memory_was_modified", "label_like_register_with_digits", "break_table_row", "break_table_row_truncated",
     "break_table_row_multibyte", "break_table_row_without_statement", "image_crosses_fe00", "label_shaped_like_number_or_register",
+    "eval_of_a_line_with_its_label_in_front",
 ];
 
 pub fn run(cfg: &Cfg, col: &mut Collector) {
@@ -158,6 +159,17 @@ fn one_case(seed: u64, i: u64) -> CaseOut {
     }
     if n_moves > 0 {
         out.class("assembly_after_memory_was_modified");
+    }
+    // a source line pasted into `eval` with its label in front is refused ("expected an instruction");
+    // the label keeps marking its own statement afterwards
+    let mut n_moves = n_moves;
+    if !img.labels.is_empty() && rng.chance(1, 3) {
+        for _ in 0..1 + rng.below(2) {
+            let (name, _) = &img.labels[rng.below(img.labels.len() as u64) as usize];
+            lines.push(format!("{} {}{} {}", rng.s(&["eval", "e"]), name, rng.s(&["", ":"]), rng.s(&["add r0, r0, #0", "not r1 r1", "and r2 r2 r2"])));
+            n_moves += 1;
+        }
+        out.class("eval_of_a_line_with_its_label_in_front");
     }
     for q in &qs {
         lines.push(match q {
